@@ -222,6 +222,39 @@ theorem datetime_key_inj (a b : XmlDateTime)
   simp only [XmlDateTime.mk.injEq]
   refine ⟨by omega, by omega, by omega, by omega, by omega, by omega, by omega, ho⟩
 
+/-- the same for `XmlTime`: equal keys of in-range same-offset times mean equal times -/
+theorem time_key_inj (a b : XmlTime)
+    (hta : todOK a.hour a.minute a.second a.frac) (htb : todOK b.hour b.minute b.second b.frac)
+    (ho : a.offset = b.offset) (hk : a.timeline = b.timeline) : a = b := by
+  unfold todOK at hta htb
+  obtain ⟨ah, ami, as, af, ao⟩ := a
+  obtain ⟨bh, bmi, bs, bf, bo⟩ := b
+  simp only at ho hta htb
+  subst ho
+  simp only [XmlTime.timeline] at hk
+  simp only [XmlTime.mk.injEq]
+  refine ⟨by omega, by omega, by omega, by omega, trivial⟩
+
+/-- the calendar + clock order is total on real same-offset values: of `a` before `b`,
+`a = b`, `b` before `a` one holds (and by `datetime_key_lt_iff` / `datetime_key_inj`
+the key decides which), so `_cmp` never leaves two distinct instants unordered -/
+theorem datetime_key_trichotomy (a b : XmlDateTime)
+    (ha : realDate a.year a.month a.day) (hb : realDate b.year b.month b.day)
+    (hta : todOK a.hour a.minute a.second a.frac) (htb : todOK b.hour b.minute b.second b.frac)
+    (ho : a.offset = b.offset) :
+    dtLt a b ∨ a = b ∨ dtLt b a := by
+  have ho' : a.offset.getD 0 = b.offset.getD 0 := by rw [ho]
+  have h1 := datetime_key_lt_iff a b ha hb hta htb ho'
+  have h2 := datetime_key_lt_iff b a hb ha htb hta ho'.symm
+  by_cases c1 : a.timeline < b.timeline
+  · exact Or.inl (h1.mp c1)
+  · by_cases c2 : b.timeline < a.timeline
+    · exact Or.inr (Or.inr (h2.mp c2))
+    · exact Or.inr (Or.inl (datetime_key_inj a b ha hb hta htb ho (by omega)))
+
+example : todOK 23 59 59 5 ∧ (⟨23, 59, 59, 5, some 60⟩ : XmlTime).offset = some 60 := by
+  unfold todOK; exact ⟨by omega, rfl⟩
+
 example : realDate 2024 2 29 ∧ (nextDay 2024 2 29 = (2024, 3, 1)) := by
   refine ⟨⟨by decide, by decide, by decide, 29, by decide, by decide⟩, by decide⟩
 example : todOK 23 59 59 999999999 := by unfold todOK; omega
